@@ -85,8 +85,11 @@ PfbTerm(S) == CASE S.tail.k \in {"eof", "marker"} -> "eof"
 PfbPayloads == << <<26, 178, 60, 77>>, <<212, 94, 246, 9>>, <<128, 3, 159, 160>> >>
 PfbMkSegs(f) == [j \in 1..Len(f) |-> [ty |-> f[j][1], data |-> SubSeq(PfbPayloads[j], 1, f[j][2])]]
 PfbSegSeqs(maxSegs, maxLen) == {PfbMkSegs(f) : f \in UNION {[1..k -> (1..2) \X (0..maxLen)] : k \in 0..maxSegs}}
-PfbGarbage(rich) == IF rich THEN {<<>>, <<0>>, <<1, 2, 3, 4>>, <<128, 1, 1, 0, 0, 0, 65>>}
-                    ELSE {<<>>, <<128, 1, 1, 0, 0, 0, 65>>}
+\* bytes after the end marker: nothing, something that looks like a segment, zero padding (the four
+\* bytes after the marker would be a length if the marker were taken for an ordinary header)
+PfbGarbage(rich) == IF rich THEN {<<>>, <<0>>, <<1, 2, 3, 4>>, <<128, 1, 1, 0, 0, 0, 65>>, <<0, 0, 0, 0, 0>>,
+                                  <<0, 0, 0, 0, 128, 1, 1, 0, 0, 0, 65>>, <<0, 0, 0>>}
+                    ELSE {<<>>, <<128, 1, 1, 0, 0, 0, 65>>, <<0, 0, 0, 0, 0>>}
 PfbBadHdrs(rich) == IF rich THEN {<<129, 1>>, <<128, 4>>, <<128, 0>>, <<0, 2>>} ELSE {<<128, 4>>}
 \* short: "no" (well-formed and bad-header tails), "yes" (all), "only" (cut-short binary segments only)
 PfbTails(segs, rich, short) ==
